@@ -89,7 +89,7 @@ func objects() []objSpec {
 		obsGens := []struct {
 			n string
 			v any
-		}{{"absent", nil}, {"=gen", gen}, {"!=gen", other}, {"string", "1"}, {"float", 1.5}}
+		}{{"absent", nil}, {"=gen", gen}, {"!=gen", other}, {"zero", int64(0)}, {"string", "1"}, {"float", 1.5}}
 		conds := []struct {
 			n string
 			v any
@@ -99,6 +99,7 @@ func objects() []objSpec {
 			{"[Ready=False]", []any{map[string]any{"type": "Ready", "status": "False"}}},
 			{"[Ready=True@stale]", []any{map[string]any{"type": "Ready", "status": "True", "observedGeneration": other}}},
 			{"[Ready=True@gen]", []any{map[string]any{"type": "Ready", "status": "True", "observedGeneration": gen}}},
+			{"[Ready=True@0]", []any{map[string]any{"type": "Ready", "status": "True", "observedGeneration": int64(0)}}},
 			{"[Other=True,Ready=True]", []any{map[string]any{"type": "Other", "status": "True"}, map[string]any{"type": "Ready", "status": "True"}}},
 			{"[Ready=False,Ready=True]", []any{map[string]any{"type": "Ready", "status": "False"}, map[string]any{"type": "Ready", "status": "True"}}},
 			{"[Ready=True@'x']", []any{map[string]any{"type": "Ready", "status": "True", "observedGeneration": "x"}}},
@@ -378,7 +379,7 @@ func run(o checks.Opts) *report.Report {
 	rep.Bounds["objects"] = len(objs)
 	rep.Bounds["first_probe_variants"] = len(first)
 	rep.Bounds["second_probe_variants"] = len(second)
-	rep.Rule = "probe lists: [] , [p] and [p,q] with p from 8 selectors (kind, label equality, none, negative-only requirements) x (<=2 probes from 10 kinds incl. a failing CEL rule with an empty message and fieldsEqual over two absent fields), q from selectors x (<=1 probe); objects: generation x labels x status shape (absent, {}, scalar, observedGeneration absent/=/!=/string/float x 14 conditions shapes x fieldsEqual operand absent/equal/different); every list is parsed by the real internal/probing.Parse and probed on every object; distinct = (success, #messages, undecided)"
+	rep.Rule = "probe lists: [] , [p] and [p,q] with p from 8 selectors (kind, label equality, none, negative-only requirements) x (<=2 probes from 10 kinds incl. a failing CEL rule with an empty message and fieldsEqual over two absent fields), q from selectors x (<=1 probe); objects: generation x labels x status shape (absent, {}, scalar, observedGeneration absent/=/!=/0/string/float x 15 conditions shapes x fieldsEqual operand absent/equal/different); every list is parsed by the real internal/probing.Parse and probed on every object; distinct = (success, #messages, undecided)"
 	var lists [][]osProbe
 	lists = append(lists, nil)
 	for _, p := range first {
